@@ -41,6 +41,8 @@ func runC04(c *engine.Ctx) {
 	r7 := c.Rule("R7", "once a new request is handed to the run loop the caller waits for the loop's reply; only the manager's own shutdown interrupts the wait", 1)
 	c04Terminal(c, r6)
 	c04NewRequestWait(c, r7)
+	r8 := c.Rule("R8", "the loader is taken online before the request goes out (a response arriving at once is not discarded together with its terminal status)", 1)
+	c04OnlineBeforeSend(c, r8)
 
 	m := loadMgr(c, r1, "requestmanager")
 	if m == nil {
@@ -598,5 +600,52 @@ func c04NewRequestWait(c *engine.Ctx, rule string) {
 	})
 	if n == 0 {
 		c.AnchorMissing(rule, "the select in NewRequest that receives the run loop's reply")
+	}
+}
+
+// c04OnlineBeforeSend (R8): responses are ingested, and a terminal status takes the loader offline, only while the
+// loader is online.  If the request is sent first, a response processed before the executor goes online is dropped
+// with its terminal status, and the executor then waits for remote data forever: the channels never close.
+func c04OnlineBeforeSend(c *engine.Ctx, rule string) {
+	ex := "requestmanager/executor"
+	reqF := c.P.Field(ex, "RequestTask", "Request")
+	if reqF == nil {
+		c.AnchorMissing(rule, "executor.RequestTask.Request")
+		return
+	}
+	var starter *ssa.Function
+	for _, f := range c.P.FuncsIn(ex) {
+		for _, ci := range engine.Calls(f) {
+			if ci.Common.IsInvoke() && ci.Common.Method.Name() == "SendRequest" && derivesFromField(ci.Common.Args[1], reqF, 6) {
+				starter = f
+			}
+		}
+	}
+	if starter == nil {
+		c.AnchorMissing(rule, "the SendRequest call that sends the task's own request")
+		return
+	}
+	n := 0
+	for _, f := range c.P.FuncsIn(ex) {
+		for _, ci := range engine.Calls(f) {
+			if ci.Static != starter {
+				continue
+			}
+			n++
+			online := false
+			for _, cj := range engine.Calls(f) {
+				if cj.Common.IsInvoke() && cj.Common.Method.Name() == "SetRemoteOnline" {
+					if b, ok := engine.ConstBool(cj.Common.Args[0]); ok && b && engine.Before(cj.Instr, ci.Instr) {
+						online = true
+					}
+				}
+			}
+			c.Decide(rule, engine.FuncName(f)+"|online-before-send", ci.Instr.Pos(), online,
+				"SetRemoteOnline(true) precedes the sending of the request",
+				"the request is sent before the loader is taken online: a response (and its terminal status) processed in between is discarded, and the executor then waits for remote data that will never come — the result channels never close")
+		}
+	}
+	if n == 0 {
+		c.AnchorMissing(rule, "a call of the function that sends the task's request")
 	}
 }
